@@ -50,7 +50,8 @@ def wtStep (s : WTState) (toks : List String) : WTState × String :=
       | "stream" => writeStream s.w k (splitBy data (parseInts chunks))
       | _ => writeReadFrom s.w k (splitBy data (parseInts chunks))
     ({ s with w := w' }, "wire " ++ hexOf (w'.out.drop before))
-  | ["rnew", limit, tl, cf, hex, _frags] =>
+  | "rnew" :: limit :: tl :: cf :: hex :: _ =>
+    -- fragment sizes and the bufio size are the implementation's business
     ({ s with r := { input := unhex hex, tail := if tl = "f" then .fail else .eof,
                      limit := limit.toNat!, closeFails := cf = "1" }, hasReader := false }, "ok")
   | ["next"] =>
